@@ -41,7 +41,7 @@ Definition nul_free (l : str) : bool := forallb (fun b => negb (b =? c_nul)) l.
 Definition expected_of_spec (pf : str -> pfres) (ns : str) (s : spec) : outcome :=
   match s with
   | SMetric raw val ty attrs => expected_metric pf ns raw val ty attrs
-  | SEvent _ _ title text attrs => OEvent (expected_event' title text attrs)
+  | SEvent _ _ title text attrs => OEvent (expected_event title text attrs)
   end.
 
 Definition derivation_ok (c : lexcase) : bool :=
